@@ -5,6 +5,7 @@ Every `expect` / `assert!` / `panic!` site of the library is an explicit outcome
 `slow_assertions` is `slowCheck`.
 -/
 import Lockable.Proofs.NoPanic
+import Lockable.Proofs.Layers
 namespace Lockable
 
 /-- In every reachable state — any interleaving, history, argument values (limits ≥ 1, any duration) —
@@ -30,6 +31,43 @@ theorem C13_into_no_panic (kind : Kind) (as : List Act) :
 /-- the invariant checker enabled by `slow_assertions` never fires, at any scheduling point -/
 theorem C13_slow_assertions (kind : Kind) (as : List Act) : slowCheck (run (State.init kind) as) = none :=
   slowCheck_ok _ (inv_reachable kind as)
+
+/-- the same for every sequence of public API calls of the sequential layer (all variants, limits, callback scripts,
+streams, expiry, cancellations) and for every schedule of the scheduled interpreter: never wedged, and the
+`slow_assertions` checker would never fire -/
+theorem C13_no_wedge_api (kind : Kind) (cs : List Call) :
+    let a := cs.foldl (fun a c => (a.exec c).1) (Api.init kind)
+    a.s.wedged = false ∧ slowCheck a.s = none := by
+  intro a
+  have hi := inv_execs cs (Api.init kind) (inv_init kind)
+  exact ⟨hi.notWedged, slowCheck_ok _ hi⟩
+
+theorem C13_no_wedge_sched (kind : Kind) (n : Nat) (progs : List (Nat × List Stmt)) (sched : List Nat) :
+    let sc0 : Sched := progs.foldl (fun sc (p : Nat × List Stmt) =>
+      match sc.threads[p.1]? with
+      | some th => { sc with threads := sc.threads.set p.1 { th with prog := p.2 } }
+      | none => sc) (Sched.init kind n)
+    let sc' := sched.foldl (fun sc t => (sc.step t).1) sc0
+    sc'.s.wedged = false ∧ slowCheck sc'.s = none := by
+  intro sc0 sc'
+  have h0 : sc0.s = State.init kind := by
+    have : ∀ (l : List (Nat × List Stmt)) (c : Sched), (l.foldl (fun sc (p : Nat × List Stmt) =>
+        match sc.threads[p.1]? with
+        | some th => { sc with threads := sc.threads.set p.1 { th with prog := p.2 } }
+        | none => sc) c).s = c.s := by
+      intro l
+      induction l with
+      | nil => intro c; rfl
+      | cons p ps ih => intro c; simp only [List.foldl]; rw [ih]; split <;> rfl
+    exact this progs (Sched.init kind n)
+  have hi0 : Inv sc0.s := by rw [h0]; exact inv_init kind
+  have : ∀ (l : List Nat) (c : Sched), Inv c.s → Inv (l.foldl (fun sc t => (sc.step t).1) c).s := by
+    intro l
+    induction l with
+    | nil => intro c hc; exact hc
+    | cons t ts ih => intro c hc; exact ih _ (inv_schedStep c t hc)
+  have hi := this sched sc0 hi0
+  exact ⟨hi.notWedged, slowCheck_ok _ hi⟩
 
 /-- non-vacuity of the modelled sites: in a state violating the invariant (a leaked placeholder, as the
 unrepaired code produced it) the eviction scan does reach its assertion and wedges the container -/
